@@ -87,24 +87,36 @@ def classify(case, frags):
 def full_string(ctx, rng):
     """write_cgsmiles(base graph, fragment dicts) -> resolves to the same molecule as the original string"""
     from cgsmiles.write_cgsmiles import write_cgsmiles
-    case = gen_mol.cut_case(rng, nmax=9, aromatic_p=0.15) if rng.random() < 0.7 else gen_levels.hier_case(rng)
+    r0 = rng.random()
+    aa = True
+    if r0 < 0.55:
+        case = gen_mol.cut_case(rng, nmax=9, aromatic_p=0.15)
+    elif r0 < 0.8:
+        case = gen_levels.hier_case(rng)
+    else:
+        # the same hierarchy without its atomistic block: the last level is coarse
+        case = gen_levels.hier_case(rng)
+        case = dict(case, s=case['s'].rsplit('.{', 1)[0])
+        aa = False
     try:
-        r = impl.resolver_from_string(case['s'])
+        r = impl.resolver_from_string(case['s'], last_all_atom=aa)
         with lib.quiet():
-            written = write_cgsmiles(r.molecule, r.fragment_dicts, last_all_atom=True)
-            _, ref = impl.resolver_from_string(case['s']).resolve_all()
+            written = write_cgsmiles(r.molecule, r.fragment_dicts, last_all_atom=aa)
+            _, ref = impl.resolver_from_string(case['s'], last_all_atom=aa).resolve_all()
     except Exception:    # noqa: BLE001
         ctx.count('full-string', nontrivial=False)
         return
     ctx.count('full-string', lib.stable_hash(case['s']), sample=case['s'])
-    c = {'kind': 'full', 's': case['s'], 'written': written}
+    ctx.feature('full-string:' + ('atomistic-last' if aa else 'coarse-last'))
+    c = {'kind': 'full', 's': case['s'], 'written': written, 'all_atom': aa}
     try:
         with lib.quiet():
-            _, got = impl.resolver_from_string(written).resolve_all()
+            _, got = impl.resolver_from_string(written, last_all_atom=aa).resolve_all()
     except Exception as err:   # noqa: BLE001
         ctx.fail(c, f'written complete string {written} is rejected: {lib.err_class(err)}', finding=classify(c, None))
         return
-    if not nx.is_isomorphic(ref, got, node_match=atom_nm, edge_match=em):
+    node_match = atom_nm if aa else (lambda a, b: a.get('atomname') == b.get('atomname') and a.get('fragname') == b.get('fragname'))
+    if not nx.is_isomorphic(ref, got, node_match=node_match, edge_match=em):
         ctx.fail(c, f'written complete string {written} resolves to a different molecule')
 
 
@@ -125,7 +137,12 @@ def run(ctx):
                         o = rng.choice([1, 1, 1, 2, 3, 0])
                         out += ({1: '', 2: '=', 3: '#', 0: '.'}[o]) + '[' + rng.choice('$$><!') + rng.choice(['', '', 'A', 'b1']) + ']'
                 return out
-            frs.append('#F%d=%s' % (i, gen_graph.render(g['ast'], extra=extra)))
+            lead = ''
+            if rng.random() < 0.3:
+                for _ in range(rng.choice([1, 1, 2])):
+                    o = rng.choice([1, 1, 2, 3, 0])
+                    lead += '[' + rng.choice('$$><!') + rng.choice(['', '', 'A', 'b1']) + ']' + {1: '', 2: '=', 3: '#', 0: '.'}[o]
+            frs.append('#F%d=%s' % (i, lead + gen_graph.render(g['ast'], extra=extra)))
         block = '{' + ','.join(frs) + '}'
         roundtrip(ctx, 'cg-fragments', block, False, {'kind': 'fragset', 's': block, 'all_atom': False})
     for _ in range(ctx.budget(300, 6000)):
@@ -149,7 +166,23 @@ def replay(payload):
     if case.get('kind') == 'fragset':
         roundtrip(ctx, 'replay', case['s'], case['all_atom'], case)
     else:
-        print('complete-string case: re-run ./check C08 quick with the recorded seed; input', case.get('s'))
+        from cgsmiles.write_cgsmiles import write_cgsmiles
+        aa = case.get('all_atom', True)
+        r = impl.resolver_from_string(case['s'], last_all_atom=aa)
+        with lib.quiet():
+            written = write_cgsmiles(r.molecule, r.fragment_dicts, last_all_atom=aa)
+            _, ref = impl.resolver_from_string(case['s'], last_all_atom=aa).resolve_all()
+        print('input', case['s'], '\nwritten', written)
+        try:
+            with lib.quiet():
+                _, got = impl.resolver_from_string(written, last_all_atom=aa).resolve_all()
+            nmf = atom_nm if aa else (lambda a, b: a.get('atomname') == b.get('atomname'))
+            if not nx.is_isomorphic(ref, got, node_match=nmf, edge_match=em):
+                print('FAILS: the written string resolves to a different molecule')
+                return 1
+        except Exception as err:   # noqa: BLE001
+            print('FAILS: the written string is rejected:', type(err).__name__, str(err)[:100])
+            return 1
     for c, what, _ in ctx.failures:
         print('FAILS:', what)
     return 1 if ctx.failures else 0
